@@ -51,7 +51,7 @@ def case_patch(draw, tier):
     name = draw(st.sampled_from(PATCH[kind]))
     d_el = {'cls': name}
     if name in ge.PP_RANGE:
-        d_el['p'] = draw(st.integers(1, 4 if name == 'ElementLinePp' else 3))
+        d_el['p'] = draw(st.integers(1, 5))
     k = ge.R[name]['deg'] if ge.R[name]['deg'] != 'p' else d_el['p']
     general = kind in ('quad', 'hex') and draw(st.integers(0, 2)) == 0
     if kind == 'wedge':
@@ -63,11 +63,12 @@ def case_patch(draw, tier):
         desc = draw(gm.mesh(kinds=(kind,), max_cells=14 if big else 10, max_cells_3d=5 if big else 3, affine_cells_only=True))
     d = gm.DIM[kind]
     problem = draw(st.sampled_from(['poisson', 'poisson', 'reaction', 'elasticity'])) if d >= 2 else draw(st.sampled_from(['poisson', 'reaction']))
-    deg = draw(st.integers(1, k)) if k >= 1 else 0
+    deg = (k if draw(st.booleans()) else draw(st.integers(1, k))) if k >= 1 else 0      # full-degree solutions half of the time
     ncomp = d if problem == 'elasticity' else 1
     return dict(mesh=desc, elem=d_el, k=k, problem=problem, polys=[draw(poly(d, deg)) for _ in range(ncomp)],
                 dpicks=draw(st.lists(st.integers(0, 10**4), min_size=1, max_size=10)), allD=draw(st.integers(0, 3)) == 0,
                 setup=draw(st.sampled_from(['arrays', 'arrays', 'named_parts', 'named_then_refined'])),
+                parts=draw(st.integers(0, 2)) == 0,
                 lam=draw(st.sampled_from([1.0, 0.5, 2.0])), mu=draw(st.sampled_from([1.0, 0.25, 3.0])), c0=draw(st.sampled_from([1.0, 0.5, 4.0])))
 
 
@@ -148,9 +149,21 @@ def body_patch(c, ctx):
                 if paa:
                     lap = lap + paa
         c0 = c['c0'] if problem == 'reaction' else 0.0
-        K = laplace.assemble(basis)
-        if c0:
-            K = K + c0 * mass.assemble(basis)
+        if c.get('parts') and m.nelements >= 2:
+            # the domain assembled piece by piece (two cell sets of equal size where possible, as for two materials)
+            h2 = m.nelements // 2
+            pieces = [np.arange(0, h2, dtype=np.int32), np.arange(h2, 2 * h2, dtype=np.int32)[::-1].copy()]
+            if 2 * h2 < m.nelements:
+                pieces.append(np.array([m.nelements - 1], dtype=np.int32))
+            pb = [CellBasis(m, build_element(c['elem']), intorder=io, elements=pc) for pc in pieces]
+            K = sum(laplace.assemble(q_) for q_ in pb)
+            if c0:
+                K = K + c0 * sum(mass.assemble(q_) for q_ in pb)
+            ctx.cls('assembled-by-parts')
+        else:
+            K = laplace.assemble(basis)
+            if c0:
+                K = K + c0 * mass.assemble(basis)
         f = LinearForm(lambda v, w: (-(lap.evalf(w.x) if lap else 0 * w.x[0]) + c0 * ev(p, w.x)) * v).assemble(basis)
         if len(Nfac):
             fbN = FacetBasis(m, build_element(c['elem']), facets=selN, intorder=io)
